@@ -291,6 +291,23 @@ func checkTrace(lines []string, bl int, ckA0, ckB0 int64) traceReport {
 	return rep
 }
 
+// firstPerKind keeps the first problem of every (kind, pass) of one trace and notes how many there were.
+func firstPerKind(ps []traceProblem) []traceProblem {
+	var out []traceProblem
+	idx := map[string]int{}
+	for _, p := range ps {
+		k := p.Kind + "/" + p.Pass
+		if i, ok := idx[k]; ok {
+			out[i].Detail["occurrences_in_this_trace"] = out[i].Detail["occurrences_in_this_trace"].(int) + 1
+			continue
+		}
+		idx[k] = len(out)
+		p.Detail["occurrences_in_this_trace"] = 1
+		out = append(out, p)
+	}
+	return out
+}
+
 // judgeTrace applies O4 to the trace of one child run whose hook events are known.
 // It returns false (trace not judged) when the trace does not contain the checkpoint writes the
 // events say happened.
@@ -308,8 +325,11 @@ func judgeTrace(traceFile string, bl int, evs []event, ckA0, ckB0 int64) (traceR
 			wantUnlink++
 		}
 	}
-	if len(lines) == 0 || rep.CkWritesA != wantA || rep.CkWritesB != wantB || rep.UnlinkA != wantUnlink || wantA+wantB == 0 {
+	// fewer writes than hook events = the trace lost calls (not judged); more is judged (the code wrote
+	// checkpoints the hooks do not know about)
+	if len(lines) == 0 || rep.CkWritesA < wantA || rep.CkWritesB < wantB || rep.UnlinkA < wantUnlink || wantA+wantB == 0 {
 		return rep, false, fmt.Sprintf("trace has %d/%d checkpoint writes (A/B) and %d unlinks of map A, hook events say %d/%d and %d", rep.CkWritesA, rep.CkWritesB, rep.UnlinkA, wantA, wantB, wantUnlink)
 	}
+	rep.Problems = firstPerKind(rep.Problems)
 	return rep, true, ""
 }
